@@ -30,3 +30,12 @@ func vhRepeat(b byte, n int) string {
 }
 
 func vhIsWS(c byte) bool { return c == ' ' || c == '\t' || c == '\n' || c == '\r' }
+
+func vhInSet(c byte, set string) bool {
+	for i := 0; i < len(set); i++ {
+		if c == set[i] {
+			return true
+		}
+	}
+	return false
+}
